@@ -558,7 +558,11 @@ def buffer_until_timeout(
     """
     if func is None:
         return partial(buffer_until_timeout, timeout=timeout)  # type: ignore
-    return wraps(func)(BufferAsyncCalls(func, timeout=timeout))  # type: ignore
+    # Don't let wraps() merge the function's attributes into the instance
+    # dictionary: one called i.e. "timeout" or "loop" would replace ours
+    return wraps(func, updated=())(  # type: ignore
+        BufferAsyncCalls(func, timeout=timeout)
+    )
 
 
 class BufferAsyncCalls(Generic[T]):
